@@ -331,7 +331,7 @@ func c14Neighbour() model.Item {
 }
 
 var c14Scenarios = []string{"input-after-put", "output-of-get", "output-of-scan", "output-of-query", "update-values-and-output", "kept-output-vs-later-write", "batch-write-input", "delete-old-output", "condition-failure-item",
-	"last-evaluated-key", "upsert-key-input", "native-updater-values", "append-to-output-after-later-write", "native-upsert-key-input", "delete-old-output-after-update", "last-evaluated-key-strings"}
+	"last-evaluated-key", "upsert-key-input", "native-updater-values", "append-to-output-after-later-write", "native-upsert-key-input", "delete-old-output-after-update", "last-evaluated-key-strings", "empty-results"}
 
 // c14BinTable: a table whose key attributes are binary (mutable byte slices).
 func c14BinTable() *model.Schema {
@@ -513,6 +513,38 @@ func runC14(c c14Case, pokes *int) (fl *failure) {
 				return newFail("stored data shares memory with the caller", "%s %s: after mutating LastEvaluatedKey / ExclusiveStartKey: expected %v, read %v", c.Client, c.Scenario, exp, got)
 			}
 			return singletonsIntact()
+		case "empty-results":
+			// responses that carry no attributes (last page, missing item, nothing replaced): what
+			// the caller stores in such a map must not come back in a later response
+			missing := drv.ToV1Item(model.Item{"pk": model.Str("no-such-key")})
+			collect := func() map[string]map[string]*ddb1.AttributeValue {
+				ms := map[string]map[string]*ddb1.AttributeValue{}
+				if q, err := cl.Query(&ddb1.QueryInput{TableName: aws1.String("tbl"), KeyConditionExpression: aws1.String("pk = :k"),
+					ExpressionAttributeValues: drv.ToV1Item(model.Item{":k": model.Str("the-key")})}); err == nil {
+					ms["Query.LastEvaluatedKey"] = q.LastEvaluatedKey
+				}
+				if sc, err := cl.Scan(&ddb1.ScanInput{TableName: aws1.String("tbl")}); err == nil {
+					ms["Scan.LastEvaluatedKey"] = sc.LastEvaluatedKey
+				}
+				if g, err := cl.GetItem(&ddb1.GetItemInput{TableName: aws1.String("tbl"), Key: missing}); err == nil {
+					ms["GetItem.Item"] = g.Item
+				}
+				if dl, err := cl.DeleteItem(&ddb1.DeleteItemInput{TableName: aws1.String("tbl"), Key: missing, ReturnValues: aws1.String("ALL_OLD")}); err == nil {
+					ms["DeleteItem.Attributes"] = dl.Attributes
+				}
+				return ms
+			}
+			for _, m := range collect() {
+				if m != nil && p.pick() {
+					m["pk"] = &ddb1.AttributeValue{S: aws1.String("planted")}
+				}
+			}
+			for what, m := range collect() {
+				if len(m) != 0 {
+					return newFail("stored data shares memory with the caller", "%s %s: %s of a later call carries %s, which the caller had stored in an earlier empty response", c.Client, c.Scenario, what, model.CanonItem(drv.FromV1Item(m)))
+				}
+			}
+			return differs("after storing entries in empty responses", get(), want)
 		case "upsert-key-input":
 			d.Apply(model.Op{Kind: "CreateTable", Schema: c14BinTable()})
 			k := model.Item{"pk": model.Bin([]byte{9, 9}), "sk": model.Bin([]byte{7})}
@@ -737,6 +769,40 @@ func runC14(c c14Case, pokes *int) (fl *failure) {
 			return newFail("stored data shares memory with the caller", "%s %s: after mutating LastEvaluatedKey / ExclusiveStartKey: expected %v, read %v", c.Client, c.Scenario, exp, got)
 		}
 		return singletonsIntact()
+	case "empty-results":
+		missing := drv.ToV2Item(model.Item{"pk": model.Str("no-such-key")})
+		collect := func() map[string]map[string]types2.AttributeValue {
+			ms := map[string]map[string]types2.AttributeValue{}
+			if q, err := cl.Query(ctx, &ddb2.QueryInput{TableName: aws.String("tbl"), KeyConditionExpression: aws.String("pk = :k"),
+				ExpressionAttributeValues: drv.ToV2Item(model.Item{":k": model.Str("the-key")})}); err == nil {
+				ms["Query.LastEvaluatedKey"] = q.LastEvaluatedKey
+			}
+			if sc, err := cl.Scan(ctx, &ddb2.ScanInput{TableName: aws.String("tbl")}); err == nil {
+				ms["Scan.LastEvaluatedKey"] = sc.LastEvaluatedKey
+			}
+			if g, err := cl.GetItem(ctx, &ddb2.GetItemInput{TableName: aws.String("tbl"), Key: missing}); err == nil {
+				ms["GetItem.Item"] = g.Item
+			}
+			if dl, err := cl.DeleteItem(ctx, &ddb2.DeleteItemInput{TableName: aws.String("tbl"), Key: missing, ReturnValues: types2.ReturnValueAllOld}); err == nil {
+				ms["DeleteItem.Attributes"] = dl.Attributes
+			}
+			var ccf *types2.ConditionalCheckFailedException
+			if _, err := cl.PutItem(ctx, &ddb2.PutItemInput{TableName: aws.String("tbl"), Item: drv.ToV2Item(want), ConditionExpression: aws.String("attribute_not_exists(pk)")}); errors.As(err, &ccf) {
+				ms["ConditionalCheckFailedException.Item"] = ccf.Item
+			}
+			return ms
+		}
+		for _, m := range collect() {
+			if m != nil && p.pick() {
+				m["pk"] = &types2.AttributeValueMemberS{Value: "planted"}
+			}
+		}
+		for what, m := range collect() {
+			if len(m) != 0 {
+				return newFail("stored data shares memory with the caller", "%s %s: %s of a later call carries %s, which the caller had stored in an earlier empty response", c.Client, c.Scenario, what, model.CanonItem(drv.FromV2Item(m)))
+			}
+		}
+		return differs("after storing entries in empty responses", get(), want)
 	case "upsert-key-input":
 		d.Apply(model.Op{Kind: "CreateTable", Schema: c14BinTable()})
 		k := model.Item{"pk": model.Bin([]byte{9, 9}), "sk": model.Bin([]byte{7})}
@@ -850,7 +916,7 @@ func init() {
 	}
 }
 
-const ruleC14 = "rapid: an item drawn from the full attribute-value generator (nested lists and maps, sets, binaries), a client (SDK v1 / v2), a scenario (mutate the input after PutItem / BatchWriteItem; mutate the output of GetItem / Scan / Query / UpdateItem / DeleteItem ALL_OLD and the UpdateItem values map; keep an output across later writes; mutate the LastEvaluatedKey of a paginated Scan / Query and the ExclusiveStartKey passed in, on a table with binary keys; mutate the key and values of an upserting UpdateItem; mutate the values handed to a registered native updater that stores them, and the key of an UpdateItem it upserts; append to the byte slices of a GetItem output after another item has been written) and a poke plan - one generated decision per mutable location of the concrete SDK structure in traversal order (each *string, *bool, byte-slice element, list slot, map entry, set member). Oracle: a read after the pokes equals the deep snapshot taken before them (a kept output equals its own snapshot after later writes), and the interpreter's TRUE / FALSE / UNDEFINED singletons keep their values. Non-trivial = at least one poke performed on a pointer, slice or map location; distinct = hash of (client, scenario, item, mask)."
+const ruleC14 = "rapid: an item drawn from the full attribute-value generator (nested lists and maps, sets, binaries), a client (SDK v1 / v2), a scenario (mutate the input after PutItem / BatchWriteItem; mutate the output of GetItem / Scan / Query / UpdateItem / DeleteItem ALL_OLD and the UpdateItem values map; keep an output across later writes; mutate the LastEvaluatedKey of a paginated Scan / Query and the ExclusiveStartKey passed in, on a table with binary keys; mutate the key and values of an upserting UpdateItem; mutate the values handed to a registered native updater that stores them, and the key of an UpdateItem it upserts; append to the byte slices of a GetItem output after another item has been written; store an entry in each empty map of the responses that carry no attributes - LastEvaluatedKey of a last page, GetItem / DeleteItem ALL_OLD of a missing key, a condition failure without item - and look at the same responses of later calls) and a poke plan - one generated decision per mutable location of the concrete SDK structure in traversal order (each *string, *bool, byte-slice element, list slot, map entry, set member). Oracle: a read after the pokes equals the deep snapshot taken before them (a kept output equals its own snapshot after later writes), and the interpreter's TRUE / FALSE / UNDEFINED singletons keep their values. Non-trivial = at least one poke performed on a pointer, slice or map location; distinct = hash of (client, scenario, item, mask)."
 
 // TestC14 decides property C14.
 func TestC14(t *testing.T) {
